@@ -793,6 +793,22 @@ fn known_streams(c: &mut Ctx) {
     const B8: i64 = 1152921504606846974; // same for 8-byte elements
     let specials: [i64; 17] = [-1, -5, i64::MIN, 1 << 36, 1 << 40, 1 << 59, 1 << 60, 1 << 62, i64::MAX, B12 - 1, B12, B12 + 1, B8 - 1, B8, B8 + 1, i64::MAX - 1, 1 << 50];
     let mut batch = vec![]; let mut docs = vec![];
+    // ---- outline items with edge-case titles (byte-order-mark fragments, empty, single bytes) and a destination
+    // ---- that resolves to a page of the page tree: get_toc / get_outlines must return
+    for (i, t) in [&b"\xfe"[..], b"\xff", b"\xfe\xff", b"\xff\xfe", b"", b"\xef", b"\xef\xbb", b"\xef\xbb\xbf", b"\xfe\x00", b"\xff\x00\x00", b"\xfe\xff\x00", b"\xff\xfe\x00", b"\x00", b"A", b"\xfe\xff\xd8\x00", b"\xff\xfe\x00\xd8\x00"].iter().enumerate() {
+        let Some(_r) = c.case("toc_titles", i as u64) else { continue };
+        let root = Object::Dictionary(dict(vec![("Type", name("Outlines")), ("First", rf((11, 0))), ("Last", rf((12, 0)))]));
+        let doc = mini(outlines_to(11), vec![(10, root),
+            (11, item(vec![("Title", lit(t)), ("Dest", fit_dest()), ("Next", rf((12, 0)))])),
+            (12, item(vec![("Title", lit(t)), ("A", Object::Dictionary(dict(vec![("S", name("GoTo")), ("D", fit_dest())])))]))]);
+        let targets = vec![(3, 0)];
+        let hz = analyse(&doc, &targets);
+        for f in ["toc", "outl"] {
+            let req = request(&format!("one={}", f), &targets, &doc);
+            c.nontrivial(&req); c.count("toc_titles.cases");
+            batch.push(Pending { case_id: c.cur, stream: "toc_titles".into(), req, doc_targets: targets.clone(), hazard: hz.clone() }); docs.push(doc.clone());
+        }
+    }
     // ---- page trees with cycles through the LAST kid of a node (nothing is pushed on the iterator's stack there):
     // ---- enumeration must still terminate through the iteration budget
     for i in 0..c.n(40, 400) {
